@@ -738,20 +738,32 @@ func (ex *Exec) runCloseRace() {
 	ex.observeAndCheck("after-close-reopen", false, true)
 }
 
-// everAtList: index -> entry, a slice instead of a map because several tasks
-// touch it (serially) and Go maps carry race-detector hooks in the runtime.
-type everAtList []*model.Entry
+// everAtList: index -> entry, an association list instead of a map because
+// several tasks touch it (serially) and Go maps carry race-detector hooks in
+// the runtime. Indexes may be huge (logs not starting at 1), so it is keyed,
+// not positional; a run submits a few hundred entries at most.
+type everAtList []everAtEnt
+
+type everAtEnt struct {
+	idx uint64
+	e   *model.Entry
+}
 
 func (l everAtList) get(i uint64) *model.Entry {
-	if i < uint64(len(l)) {
-		return l[i]
+	for k := len(l) - 1; k >= 0; k-- {
+		if l[k].idx == i {
+			return l[k].e
+		}
 	}
 	return nil
 }
 
 func (l *everAtList) set(i uint64, e *model.Entry) {
-	for uint64(len(*l)) <= i {
-		*l = append(*l, nil)
+	for k := len(*l) - 1; k >= 0; k-- {
+		if (*l)[k].idx == i {
+			(*l)[k].e = e
+			return
+		}
 	}
-	(*l)[i] = e
+	*l = append(*l, everAtEnt{i, e})
 }
